@@ -186,6 +186,79 @@ func runC14(c *Ctx) {
 		}
 	}
 	r.Check("C14.control-dependence", "branches enumerated", m.Pos(psp.Pos()), nCond >= 8, fmt.Sprintf("%d", nCond))
+	// unanchored tests: a substring can occur anywhere in a line — in a file path, in the text of
+	// an argument — so a test that is not tied to the beginning or end of the line lets that text
+	// decide the shape. The ones the format needs are tabled.
+	unanchoredOK := map[string]string{
+		`strings.Contains " [running]:"`: "the status follows the goroutine id on a header line, which is already recognised by its prefix",
+		`strings.Cut " pc="`:             "the PC is the text after the marker; a line without it is an inlined frame",
+		`strings.LastIndex "("`:          "getSymbol: the symbol ends at the last opening parenthesis of a SYMBOL(ARGS) line",
+		`strings.LastIndexByte "("`:      "getSymbol (byte form)",
+	}
+	nUn := 0
+	for _, fn := range WithClosures(psp) {
+		for _, cs := range callsIn(fn) {
+			name := calleeName(cs.Common())
+			switch name {
+			case "strings.Contains", "strings.Index", "strings.LastIndex", "strings.Cut", "strings.ContainsAny", "strings.Count", "strings.IndexByte", "strings.LastIndexByte", "strings.ContainsRune", "strings.IndexAny", "strings.IndexRune", "strings.SplitN", "strings.SplitAfterN":
+			default:
+				continue
+			}
+			a := cs.Common().Args
+			if len(a) < 2 {
+				continue
+			}
+			pat := describe(a[1])
+			nUn++
+			_, ok := unanchoredOK[name+" "+pat]
+			r.Check("C14.control-dependence", fname(fn)+"/unanchored test "+name+" "+pat, m.Pos(cs.Pos()), ok,
+				"a substring test on crash text that is not in the table of tests the report format needs (a goroutine's frames end at a line that BEGINS with \"created by \")")
+		}
+	}
+	r.Check("C14.control-dependence", "unanchored tests enumerated", m.Pos(psp.Pos()), nUn >= 2, fmt.Sprintf("%d", nUn))
+	// a frame whose symbol line cannot be read makes the report malformed (an error, no counter):
+	// skipping the line would also skip the PC line that follows it, and the frame would silently
+	// drop out of the name
+	nSym := 0
+	for _, cs := range callsIn(psp) {
+		cl, ok := cs.(*ssa.Call)
+		if !ok || cl.Call.StaticCallee() == nil {
+			continue
+		}
+		tup, ok := cl.Type().(*types.Tuple)
+		if !ok || tup.Len() != 2 || !isErrorType(tup.At(1).Type()) {
+			continue
+		}
+		if b, isB := tup.At(0).Type().Underlying().(*types.Basic); !isB || b.Kind() != types.String {
+			continue
+		}
+		if g := cl.Call.StaticCallee(); g != nil && g.Parent() != psp {
+			continue
+		}
+		nSym++
+		okRej := false
+		var ec ssa.Value
+		for _, u := range referrers(cl) {
+			if ex, isEx := u.(*ssa.Extract); isEx && ex.Index == 1 {
+				for _, u2 := range referrers(ex) {
+					if b, isB := u2.(*ssa.BinOp); isB && isNilConst(b.Y) && b.Op == token.NEQ {
+						ec = b
+					}
+				}
+			}
+		}
+		if ec != nil {
+			okRej = true
+			for _, succ := range branchSucc(ec, true) {
+				if _, rej := rejectBlock(succ); !rej {
+					okRej = false
+				}
+			}
+		}
+		r.Check("C14.control-dependence", "parseStackPCs/an unreadable symbol line is an error", m.Pos(cl.Pos()), okRej,
+			"when the symbol of a frame cannot be extracted parseStackPCs must return an error (changing symbol text may change the name only into an error)")
+	}
+	r.Analysed["symbol_extraction_sites"] = nSym
 	// trap adjustment exactly on == "runtime.sigpanic"
 	nAdj := 0
 	for _, in := range instrsOf(psp) {
